@@ -38,7 +38,17 @@ class StmtMixin(object):
     def s_Import(self, node, st, acc):
         return st
 
-    s_ImportFrom = s_Import
+    def s_ImportFrom(self, node, st, acc):
+        """function-local `from m import a, b`: names the engine can resolve (behave functions/classes, contract
+        globals) keep that meaning; any other name is an opaque imported object."""
+        for al in node.names:
+            name = al.asname or al.name
+            try:
+                self.global_name(name, st)
+            except Undecided:
+                st.env[name] = SV(self.u.fresh_val("imported_" + name))
+        return st
+
 
     def s_Global(self, node, st, acc):
         raise Undecided("global statement")
